@@ -1193,6 +1193,11 @@ func (n *normalizer) inlinableBody(c *callee) bool {
 			for _, st := range c.body.List {
 				if d, isDefer := st.(*ast.DeferStmt); isDefer {
 					ast.Inspect(d.Call, func(x ast.Node) bool {
+						if _, isLit := x.(*ast.FuncLit); isLit {
+							// the body of a deferred literal reads its variables when it runs (captured by reference), not at
+							// the defer statement: running it behind the body, in their scope, is exact
+							return false
+						}
 						if id, ok := x.(*ast.Ident); ok {
 							if o := n.info.Uses[id]; o != nil {
 								if v, isVar := o.(*types.Var); isVar && !v.IsField() && v.Parent() != nil && v.Parent() != n.pkg.Types.Scope() && !params[o] {
